@@ -93,6 +93,33 @@ func init() {
 		}
 		return mkBool(false), true
 	}
+	intrinsics["crypto/x509.SystemCertPool"] = func(w *Worker, fr *frame, args []Value) (Value, bool) {
+		w.recordCall(fr, args)
+		// the host's trust store: a pool that is NOT "exactly the configured CA"
+		res := fr.fn.Signature.Results()
+		cell := zero(mustDeref(res.At(0).Type()))
+		p := &cell
+		m, _ := w.pathState["pools"].(map[*Value][]Value)
+		if m == nil {
+			m = map[*Value][]Value{}
+			w.pathState["pools"] = m
+		}
+		m[p] = append(m[p], bytesVal([]byte("<system roots>")))
+		return Tuple{p, Iface{}}, true
+	}
+	intrinsics["(*crypto/x509.CertPool).Clone"] = func(w *Worker, fr *frame, args []Value) (Value, bool) {
+		w.recordCall(fr, args)
+		src := args[0].(*Value)
+		cell := zero(mustDeref(fr.fn.Signature.Results().At(0).Type()))
+		p := &cell
+		m, _ := w.pathState["pools"].(map[*Value][]Value)
+		if m == nil {
+			m = map[*Value][]Value{}
+			w.pathState["pools"] = m
+		}
+		m[p] = append([]Value(nil), m[src]...)
+		return p, true
+	}
 	intrinsics["crypto/tls.X509KeyPair"] = func(w *Worker, fr *frame, args []Value) (Value, bool) {
 		w.recordCall(fr, args)
 		ok := w.stubBool("stub:keyPairParses")
@@ -153,7 +180,25 @@ func init() {
 	intrinsics["(google.golang.org/protobuf/proto.MarshalOptions).Marshal"] = marshal(1, -1)
 	intrinsics["(google.golang.org/protobuf/proto.MarshalOptions).MarshalAppend"] = marshal(2, 1)
 	intrinsics["google.golang.org/protobuf/proto.Unmarshal"] = func(w *Worker, fr *frame, args []Value) (Value, bool) {
-		w.recordCall(fr, args)
+		w.recordCall(fr, append(args[:2:2], mkBool(false)))
+		return Iface{}, true
+	}
+	// UnmarshalOptions.Unmarshal is recorded under the name of proto.Unmarshal with
+	// (bytes, message, merge) so that a harness sees whether stale fields survive
+	intrinsics["(google.golang.org/protobuf/proto.UnmarshalOptions).Unmarshal"] = func(w *Worker, fr *frame, args []Value) (Value, bool) {
+		opts := args[0].(Struct)
+		st := fr.fn.Signature.Recv().Type().Underlying().(*types.Struct)
+		var merge Value = mkBool(false)
+		for i := 0; i < st.NumFields(); i++ {
+			if st.Field(i).Name() == "Merge" {
+				merge = opts[i]
+			}
+		}
+		calls, _ := w.pathState["calls"].([]stubCall)
+		ufn := w.E.Prog.ImportedPackage("google.golang.org/protobuf/proto").Func("Unmarshal")
+		calls = append(calls, stubCall{name: "google.golang.org/protobuf/proto.Unmarshal", fn: ufn, args: []Value{args[1], args[2], merge}})
+		w.pathState["calls"] = calls
+		w.stub("protobuf UnmarshalOptions.Unmarshal (recorder)")
 		return Iface{}, true
 	}
 	noop := func(w *Worker, fr *frame, args []Value) (Value, bool) { return zeroRet(fr.fn), true }
@@ -183,6 +228,9 @@ func init() {
 			}
 			i := sI(a[2])
 			params := c.fn.Signature.Params()
+			if c.fn.Signature.Recv() == nil && i >= params.Len() {
+				return Iface{T: types.Typ[types.Bool], V: c.args[i]}, true
+			}
 			var t types.Type
 			if c.fn.Signature.Recv() != nil {
 				if i == 0 {
